@@ -1,3 +1,4 @@
 pub mod json;
 pub mod spell;
 pub mod ftable;
+pub mod decimal;
